@@ -40,7 +40,7 @@ contract("ArgumentMapping.__init__", source=M + "ArgumentMapping.__init__",
          note="argument texts are opaque (only moved and compared)")
 
 from bounded import c06_signatures as _b6
-bounded_check(name="c06-signatures", fn=_b6.run_case, domain=_b6.domain, exhaustive=True, max_failures=100000, max_failures_per_chunk=100000, serial=True,
+bounded_check(name="c06-signatures", props=["C06"], fn=_b6.run_case, domain=_b6.domain, exhaustive=True, max_failures=100000, max_failures_per_chunk=100000, serial=True,
               label="B3: 15 signatures x 16 call shapes x 6 changers: the rewritten definition and call executed, bindings of surviving parameters compared through the interpreter")
-bounded_check(name="c06-projects", fn=_b6.project_case, domain=_b6.project_domain, exhaustive=True, serial=True,
+bounded_check(name="c06-projects", props=["C06"], fn=_b6.project_case, domain=_b6.project_domain, exhaustive=True, serial=True,
               label="B3: 5 projects: constructor called from another module, dotted receiver, identical call text bound/unbound, keyword+default method calls, classmethod/staticmethod")
